@@ -186,7 +186,10 @@ theorem rStep_good (c : RCfg) (hw : c.w < 65536) (s : RState) (h : RInv c s) (ev
             · intro _; exact hfullb
             · intro hk; simp only at hk; rw [hrun] at hk; simp at hk
             · exact Or.inr ⟨n, payload, rfl, hn, rfl⟩
-      · -- out of sequence: flush and repeat the last acknowledgement
+      · split
+        · -- duplicate of the block just buffered: ignored
+          exact ⟨h, by simp, Or.inl rfl⟩
+        -- out of sequence: flush and repeat the last acknowledgement
         obtain ⟨i1, _, i3, i4, i5⟩ := hflush s h hrun
         refine ⟨i1, ?_, Or.inl i3⟩
         intro a ha
